@@ -3,6 +3,8 @@
 import Earverif.Model.GainCalc
 import Mathlib.Analysis.SpecialFunctions.Trigonometric.Basic
 import Mathlib.Analysis.SpecialFunctions.Sqrt
+import Mathlib.Analysis.SpecialFunctions.Pow.Real
+import Mathlib.Analysis.SpecialFunctions.Complex.Arg
 import Mathlib.Algebra.BigOperators.Group.Finset.Basic
 import Mathlib.Tactic.Ring
 import Mathlib.Tactic.FieldSimp
@@ -18,6 +20,8 @@ noncomputable instance instScalarReal : Scalar ℝ where
   cos := Real.cos
   sin := Real.sin
   pi := Real.pi
+  pow := Real.rpow
+  atan2 y x := Complex.arg ⟨x, y⟩
   nanToNum x := x
   decLt _ _ := Classical.propDecidable _
   decLe _ _ := Classical.propDecidable _
@@ -26,6 +30,7 @@ noncomputable instance instScalarReal : Scalar ℝ where
 @[simp] theorem cos_real (x : ℝ) : Scalar.cos x = Real.cos x := rfl
 @[simp] theorem sin_real (x : ℝ) : Scalar.sin x = Real.sin x := rfl
 @[simp] theorem pi_real : (Scalar.pi : ℝ) = Real.pi := rfl
+@[simp] theorem pow_real (x y : ℝ) : Scalar.pow x y = x ^ y := rfl
 @[simp] theorem nanToNum_real (x : ℝ) : Scalar.nanToNum x = x := rfl
 @[simp] theorem ofRat_real (q : Rat) : (Scalar.ofRat q : ℝ) = (q : ℝ) := rfl
 @[simp] theorem k_real (q : Rat) : (k q : ℝ) = (q : ℝ) := rfl
